@@ -25,6 +25,14 @@ pub fn functions(with_probe: bool) -> Vec<Box<dyn Function>> {
     fns
 }
 
+fn target_path_json(p: &vrl::path::OwnedTargetPath) -> J {
+    let prefix = match p.prefix {
+        vrl::path::PathPrefix::Event => ".",
+        vrl::path::PathPrefix::Metadata => "%",
+    };
+    json!({"prefix": prefix, "segs": crate::ops::segments_json(&p.path)})
+}
+
 pub fn diags_json(src: &str, d: &DiagnosticList) -> J {
     let mut out = Vec::new();
     for x in d.iter() {
@@ -164,6 +172,8 @@ pub fn compile(req: &J) -> Compiled {
                     "abortable": info.abortable,
                     "queries": info.target_queries.iter().map(ToString::to_string).collect::<Vec<_>>(),
                     "assignments": info.target_assignments.iter().map(ToString::to_string).collect::<Vec<_>>(),
+                    "query_paths": info.target_queries.iter().map(target_path_json).collect::<Vec<_>>(),
+                    "assignment_paths": info.target_assignments.iter().map(target_path_json).collect::<Vec<_>>(),
                 }),
             );
             let ti = guarded(|| program.final_type_info());
